@@ -235,6 +235,57 @@ func verifC02Inverse(maxDiffs int) {
 			}
 		}
 	}
+	// reference model of the expiration lists under the order rules the store
+	// documents: append when applying, swap-remove when deleting, prepend when
+	// a revert restores an entry (chain/db.go putFileContractExpiration)
+	model := map[uint64][]types.FileContractID{}
+	for k := range preFC {
+		model[fcWindow[k]] = append(model[fcWindow[k]], preFC[k].FileContractElement.ID)
+	}
+	swapRemove := func(h uint64, id types.FileContractID) {
+		l := model[h]
+		for i := range l {
+			if l[i] == id {
+				l[i] = l[len(l)-1]
+				model[h] = l[:len(l)-1]
+				return
+			}
+		}
+	}
+	prepend := func(h uint64, id types.FileContractID) {
+		model[h] = append([]types.FileContractID{id}, model[h]...)
+	}
+	for _, d := range fces {
+		id, we := d.FileContractElement.ID, d.FileContractElement.FileContract.WindowEnd
+		switch {
+		case d.Created && d.Resolved:
+		case d.Resolved:
+			swapRemove(we, id)
+		case d.Revision != nil:
+			if d.Revision.WindowEnd != we {
+				swapRemove(we, id)
+				model[d.Revision.WindowEnd] = append(model[d.Revision.WindowEnd], id)
+			}
+		default:
+			model[we] = append(model[we], id)
+		}
+	}
+	for i := len(fces) - 1; i >= 0; i-- {
+		d := fces[i]
+		id, we := d.FileContractElement.ID, d.FileContractElement.FileContract.WindowEnd
+		switch {
+		case d.Created && d.Resolved:
+		case d.Resolved:
+			prepend(we, id)
+		case d.Revision != nil:
+			if d.Revision.WindowEnd != we {
+				swapRemove(d.Revision.WindowEnd, id)
+				prepend(we, id)
+			}
+		default:
+			swapRemove(we, id)
+		}
+	}
 	st.applyElements(mkApply(sces, sfes, fces))
 	// revision-restore needs the stored record to be the revised one now
 	for i := range fces {
@@ -255,6 +306,17 @@ func verifC02Inverse(maxDiffs int) {
 			// history: open known finding (documented upstream)
 			vapi.Assert("exp-order.after-resolution-or-window-change", sameDump(before[i], after))
 		}
+	}
+	// whatever the history-dependence (known finding above), the order after a
+	// revert is the one the documented rules give: any other order is new
+	for _, h := range heights {
+		got := st.ExpiringFileContractIDs(h)
+		want := model[h]
+		same := len(got) == len(want)
+		for i := 0; same && i < len(got); i++ {
+			same = got[i] == want[i]
+		}
+		vapi.Assert("exp-order.follows-the-documented-rules", same)
 	}
 	vapi.Reach("roundtrip")
 }
